@@ -14,9 +14,16 @@ import (
 )
 
 type C20Op struct {
-	Op string `json:"op"` // add | flush | has | len | reopen
+	Op string `json:"op"` // add | flush | has | len | reopen | bulk
 	H  int    `json:"h,omitempty"`
+	// reopen: How = 0 fresh handle at offset 0; 1 handle positioned at the end of the file (as after measuring
+	// it); 2 the same handle again without closing (a second HashSet over a handle an earlier one flushed through)
+	How int `json:"how,omitempty"`
+	// bulk: add N further pseudo-random hashes (bulkHash(base..base+N))
+	N int `json:"n,omitempty"`
 }
+
+func bulkHash(k int) []byte { return meowSum([]byte(fmt.Sprintf("bulk-%d", k))) }
 
 type C20Plan struct {
 	Batch    uint32  `json:"batch"` // 0 = default
@@ -80,6 +87,27 @@ func init() {
 					p.Ops = append(p.Ops, C20Op{Op: "reopen"})
 				}
 			}
+			if r.Chance(0.04) {
+				// a large set (more than 4096 entries, the size of an I/O chunk) receiving small batches
+				p.Batch = Pick(r, []uint32{0, 4096, 700})
+				ops := []C20Op{{Op: "bulk", N: r.Range(4200, 11000)}, {Op: "flush"}}
+				for k := r.Range(1, 4); k > 0; k-- {
+					for j := r.Range(1, 5); j > 0; j-- {
+						if r.Chance(0.5) {
+							ops = append(ops, C20Op{Op: "bulk", N: 1})
+						} else {
+							ops = append(ops, C20Op{Op: "add", H: r.Intn(65)})
+						}
+					}
+					ops = append(ops, C20Op{Op: Pick(r, []string{"flush", "flush", "reopen"}), How: r.Intn(3)})
+				}
+				p.Ops = ops
+			}
+			for i := range p.Ops {
+				if p.Ops[i].Op == "reopen" {
+					p.Ops[i].How = r.Intn(3)
+				}
+			}
 			if tier == "thorough" && r.Chance(0.2) {
 				p.RealFile = true
 			}
@@ -118,7 +146,9 @@ func execC20(t *testing.T, raw json.RawMessage, res *Result) {
 				first = false
 				return rf, nil
 			}
-			return os.OpenFile(name, os.O_RDWR, 0644)
+			f, err := os.OpenFile(name, os.O_RDWR, 0644)
+			rf = f
+			return f, err
 		}
 		content = func() []byte { b, _ := os.ReadFile(name); return b }
 	} else {
@@ -136,9 +166,21 @@ func execC20(t *testing.T, raw json.RawMessage, res *Result) {
 	pending := map[string]bool{} // added since
 	flushes, repeats, reopens := 0, 0, 0
 
+	bulkNext := 0
 	checkAll := func(when string) bool {
+		probe := make([][]byte, 0, 65+len(flushed)+8)
 		for i := 0; i < 65; i++ {
-			h := hashFromIndex(i)
+			probe = append(probe, hashFromIndex(i))
+		}
+		if bulkNext > 0 {
+			for k := range flushed {
+				probe = append(probe, []byte(k))
+			}
+			for k := 0; k < 8; k++ {
+				probe = append(probe, bulkHash(bulkNext+k)) // never added
+			}
+		}
+		for _, h := range probe {
 			ok, err := hs.Has(h)
 			if err != nil {
 				res.Violate("hashset-error", "%s: Has(%x): %v", when, h, err)
@@ -217,6 +259,20 @@ func execC20(t *testing.T, raw json.RawMessage, res *Result) {
 			// Add flushes by itself when the batch is full; find out by asking Len
 			// only through the model: the batch holds pending entries not yet on file.
 			_ = bs
+		case "bulk":
+			if op.N < 0 || op.N > 20000 || bulkNext+op.N > 60000 {
+				res.Invalid("bulk")
+				return
+			}
+			for k := 0; k < op.N; k++ {
+				h := bulkHash(bulkNext)
+				bulkNext++
+				if err := hs.Add(h); err != nil {
+					res.Violate("hashset-error", "op %d Add: %v", i, err)
+					return
+				}
+				pending[string(h)] = true
+			}
 		case "flush":
 			if err := hs.Flush(); err != nil {
 				res.Violate("hashset-error", "op %d Flush: %v", i, err)
@@ -263,13 +319,36 @@ func execC20(t *testing.T, raw json.RawMessage, res *Result) {
 			}
 			pending = map[string]bool{}
 			flushes++
-			if err := hs.Close(); err != nil {
-				res.Violate("hashset-error", "op %d Close: %v", i, err)
-				return
-			}
-			f, err := open()
-			if err != nil {
-				res.Invalid("reopen: %v", err)
+			var f index.ReadWriteSeekCloser
+			var err error
+			switch op.How {
+			case 2:
+				// the handle is used again as it is (wherever the last flush left its offset)
+				if p.RealFile {
+					f = rf
+				} else {
+					f = sf
+				}
+				res.probe("reopen_same_handle", 1)
+			case 0, 1:
+				if err := hs.Close(); err != nil {
+					res.Violate("hashset-error", "op %d Close: %v", i, err)
+					return
+				}
+				f, err = open()
+				if err != nil {
+					res.Invalid("reopen: %v", err)
+					return
+				}
+				if op.How == 1 {
+					if _, err := f.Seek(0, 2); err != nil {
+						res.Invalid("seek: %v", err)
+						return
+					}
+					res.probe("reopen_handle_at_end", 1)
+				}
+			default:
+				res.Invalid("reopen how")
 				return
 			}
 			hs, err = index.NewHashSet(f, p.Batch)
